@@ -47,6 +47,26 @@ CHECKS = {
    text="All sequences with repetition of 2 items (x pragma placed first / between / last) and of 3 items (quick: every 4th; thorough: all) from a pool of 19 top-level item templates (contracts with constructor before/after functions, written / unwritten / constructor-assigned variables, single narrow variable, optimal and packable layouts, library, interface, free function, structs, constants, selfdestruct, memory parameters, unchecked blocks, require strings, ...), each instance with fresh identifier suffixes; for each of the 28 non-SafeMath detectors the lines reported for the whole file must equal the union of the lines reported for the item-wise blanked files (line breaks and pragmas kept). Leaks and suppressions are both violations.",
    note="Trusted: nothing beyond the detectors themselves: the oracle is differential (same detector on the blanked files). Bounded to 3 items from the pool.",
    technique="bounded-exhaustive enumeration of item sequences with a differential (compositionality) oracle"),
+ "C03": dict(engine="fsx", ref="7/C03, 9, 10",
+   text="Explicit-state exploration of (directory tree, listing order, pattern list): all trees with <= 4 (quick) / 5 (thorough) entries and depth <= 2 over files with findings for one / two patterns, blank files, finding-free files, ineligible files and same-named files with identical or shifted line sets, x EVERY permutation of EVERY directory's listing (owned through the cfg-guarded read_dir seam) x pattern lists (one, two in both orders, thorough: all), through the real analyze_dir of all three categories; oracle: sorted multiset of (file, line set) per pattern obtained by analysing each eligible file alone. Trees of <= 3 entries are replayed against the unhooked binary on tmpfs with a creation history that yields each root listing order (verified by reading the directory back), the report parsed back and compared.",
+   note="Trusted: the seam returns the real entries in the requested order; tmpfs listing order is verified per state, unobtainable orders are counted, not assumed. Bounded by tree size and depth.",
+   technique="explicit-state enumeration of environment answers (directory listing orders) and tree shapes against a per-file reference; hook-free replay of states on the real binary"),
+ "C11": dict(engine="report", ref="7/C11",
+   text="Findings maps as the analyser can produce them: all 16 vulnerability subsets x 1..3 files x name/line variants, all 8 QA subsets, optimisation singletons, all 253 pairs, full and empty maps, repeated file names with overlapping / identical line sets, all 8 category-presence combinations; file names with blanks, colons, non-ASCII, list-item and heading look-alikes; rendered through generate_vulnerability_report / generate_optimization_report / generate_qa_report and, in a scratch working directory, generate_report with the file read back. Oracle: tolerant parse-back (section texts taken from get_*_report_section of the same build): per pattern multiset(entries) = multiset(findings), section present exactly when the pattern has findings, no entry before the first section, a report file exists.",
+   note="Trusted: the parse-back assumes only what the property states (list-item lines 'name:line', split at the last colon, attributed to the last preceding section text). Bounded: <= 3 files per pattern.",
+   technique="exhaustive enumeration of findings maps (pattern subsets x multiplicities) with a parse-back round-trip oracle"),
+ "C12": dict(engine="report", ref="7/C12",
+   text="Same findings-map space as C11, in particular all 16 subsets of the four vulnerability patterns x file/line multiplicities and all 8 category-presence combinations. Oracle: the integer after 'Total' in each overview equals the number of entries parsed back from that part; a category part is present iff the category has findings; each vulnerability section lies under its own severity heading (table transcribed from the property) and a severity heading appears exactly when a finding of that severity exists; headings are recognised tolerantly (a markdown heading containing High / Medium / Low outside section texts).",
+   note="Trusted: severity table from the property text; tolerant heading/total recognition.",
+   technique="exhaustive enumeration of findings maps with recount / heading-structure oracles on the rendered report"),
+ "C13": dict(engine="report+fsx", ref="7/C13",
+   text="For every findings set (all 15 non-empty vulnerability subsets, all 7 QA subsets, optimisation windows of 2..4 (5) patterns) ALL n! iteration orders a HashMap can present are witnessed by constructing fresh maps (varying hasher instance, insertion order, capacity) until each order has appeared, crossed with all permutations of each pattern's file vector (same file name with different line sets included); every state is rendered by the real generate_*_report and all renderings of one set must be byte-identical. Directory level: analyze_dir + generate_report under every listing permutation of every directory (seam) and every order of the configured patterns. Binary level (sampled, labelled): three runs of the unhooked binary on one directory.",
+   note="Hash seeds are not enumerated; the iteration orders they induce are, completely, for n <= 4 (5) keys. The binary re-run is a sampled confirmation only.",
+   technique="explicit-state enumeration of nondeterminism sources (all map iteration orders, all discovery and listing orders) with a byte-equality oracle"),
+ "C16": dict(engine="fsx", ref="7/C16",
+   text="Trees mixing 8 eligible files with 22 ineligible names (every letter-casing class of .sol / .t.sol, look-alike suffixes, names with multi-byte characters straddling suffix offsets) x 4 contents (valid Solidity with findings, empty, unparseable text, non-UTF-8 bytes), alone, next to an eligible file, in pairs, at depth 0, 1 and 2, under every listing order (seam); real analyze_dir of the three categories. Oracle: eligibility predicate from the property, per-file union of the eligible files, differential 'same result as the tree without its ineligible files', and no panic; binary-level replay of small trees.",
+   note="Names containing '.t.sol' case-insensitively not as a suffix while ending in '.sol' are left out (the property does not classify them).",
+   technique="explicit-state enumeration of directory contents and listing orders with predicate + differential ('as if absent') oracles"),
 }
 ALL = ["C%02d" % i for i in range(1, 20)]
 NOT_YET = "check not built yet in this revision of /verif (see DESIGN.md section 7 for the planned decision procedure)"
